@@ -95,6 +95,20 @@ Proof.
     rewrite Hc', Hc1. reflexivity.
 Qed.
 
+(* one operation, with the separators *)
+Theorem live_step_seps b o l st : lwf b l = true -> operands_ok o = true ->
+  x_in_range (fst (lcontent l)) o = true -> holds st (ltree l) ->
+  exists l' st', a_op o l = Some l' /\
+                 run_ops fixed (compile o) st = Ok st' /\ holds st' (ltree l') /\
+                 lwf b l' = true /\
+                 lcontent l' = (xstep (fst (lcontent l)) o, snd (lcontent l)) /\
+                 lentries l' = estep (lentries l) o /\
+                 field_shape (ltree l') = true /\
+                 tree_slots (ltree l') = sstep (fst (lcontent l)) (tree_slots (ltree l)) o.
+Proof.
+  intros H Ho Hr Hst. destruct (live_step b o l st H Ho Hr Hst) as (l' & st' & Ha & R & Hst' & Hw & Hc & He).
+  exists l', st'. repeat (split; [assumption|]). split; [now apply (shape_ltree b)|now apply (a_op_slots b)].
+Qed.
 (* the same, and what the history did to the separators: RelEditSpec.slots_after *)
 Lemma slots_after_cons o rest f s : slots_after (o :: rest) f s = slots_after rest (astep f o) (sstep f s o).
 Proof. reflexivity. Qed.
